@@ -337,15 +337,18 @@ func (w *writer) run() ([]byte, string) {
 		fdSelectData = w.encodeFDSelect()
 	} else {
 		if opt.CharsetFormat >= 100 {
-			id := opt.CharsetFormat - 100
-			tab := [][]string{ISOAdobeCharset, ExpertCharset, ExpertSubsetCharset}[id]
-			if nGlyphs <= len(tab) {
-				ok := true
-				for i, n := range f.GlyphNames {
-					ok = ok && n == tab[i]
-				}
-				if ok {
-					charsetID = id
+			// the requested predefined charset first, then the other two
+			for k := 0; k < 3 && charsetID < 0; k++ {
+				id := (opt.CharsetFormat - 100 + k) % 3
+				tab := [][]string{ISOAdobeCharset, ExpertCharset, ExpertSubsetCharset}[id]
+				if nGlyphs <= len(tab) {
+					ok := true
+					for i, n := range f.GlyphNames {
+						ok = ok && n == tab[i]
+					}
+					if ok {
+						charsetID = id
+					}
 				}
 			}
 		}
@@ -359,9 +362,11 @@ func (w *writer) run() ([]byte, string) {
 			w.note("charset=predef%d", charsetID)
 		}
 		if opt.EncodingFormat >= 100 {
-			id := opt.EncodingFormat - 100
-			if PredefinedEncoding(id, f.GlyphNames) == f.Encoding {
-				encodingID = id
+			for k := 0; k < 2 && encodingID < 0; k++ {
+				id := (opt.EncodingFormat - 100 + k) % 2
+				if PredefinedEncoding(id, f.GlyphNames) == f.Encoding {
+					encodingID = id
+				}
 			}
 		}
 		if encodingID < 0 && !contiguousEncoding(&f.Encoding) {
